@@ -127,9 +127,13 @@ theorem parse_value_plain (w : List Ch) (c : Ch) (rest : List Ch) (hw : w = c ::
   | none => simp at hl
   | some l => simp [h39, h59, h34]
 
-/-- `needs_quote`: exactly the strings with a blank and no quote character -/
-theorem needsQuote_iff (s : List Ch) : needsQuote s = true ↔ (32 ∈ s ∧ 34 ∉ s ∧ 39 ∉ s) := by
+/-- `needs_quote`: the empty string, and exactly the strings with a blank and no quote character -/
+theorem needsQuote_iff (s : List Ch) : needsQuote s = true ↔ (s = [] ∨ (32 ∈ s ∧ 34 ∉ s ∧ 39 ∉ s)) := by
   simp [needsQuote]
+
+/-- the empty string is written as `''`, which is one token of a row and one scalar value -/
+theorem empty_string_quoted : formatField (.str []) = [39, 39] ∧ scalarText (.str []) = [39, 39] ∧ tokens [39, 39] = [[39, 39]] := by
+  refine ⟨by decide, by decide, by decide⟩
 
 /-- a quoted field is ONE token of a row, whatever blanks it contains -/
 theorem tokens_single_quoted (s : List Ch) (hq : (39 : Ch) ∉ s) :
